@@ -5,6 +5,8 @@ Require Import Rapid.Model.Base Rapid.Model.Syntax Rapid.Model.Monad Rapid.Model
 Require Import Rapid.Proofs.Inv Rapid.Proofs.Replay Rapid.Proofs.ReplayTop.
 Require Import Rapid.Generated.GeomTable.
 Require Import Rapid.Proofs.Glue.
+Require Rapid.Model.Groups.
+Require Import Rapid.Proofs.PruneRefines.
 Local Open Scope nat_scope.
 
 (* Replay after pruning, for every program p (any nesting of generators, filters, distinct slices, maps,
@@ -47,3 +49,14 @@ Example C04_example_hypotheses_met :
   good (res ex_run) /\ dirty (w ex_run) = false /\ length (rpd (w ex_run)) < length (rd (w ex_run))
   /\ res ex_run = Err (XStop (MUser 7) (SUser 1)).
 Proof. vm_compute. repeat split; reflexivity || lia. Qed.
+
+(* The pruned recording of the theorems above is what the code's prune() computes: data.go's index-arithmetic
+   algorithm (removeGroup: cut data[begin:end], drop the group and the following entries with end <= its end -
+   which includes unfinished groups, end = -1 - and shift later offsets), applied to the recording and the group
+   table of ANY run, yields exactly the writer's rpd. *)
+Theorem C04_prune_refines :
+  forall geom LF lvl p s,
+    let o := checkOnce geom LF lvl p s in
+    fst (Groups.prune (rd (w o)) (Groups.groups_of (glog (w o)))) = rpd (w o).
+Proof. exact prune_refines. Qed.
+Print Assumptions C04_prune_refines.
